@@ -524,6 +524,11 @@ def run(ctx):
                 ctx.violation("correspondence_" + tag, replay_text(c["kind"], "model/library correspondence mismatch (%s); model %s ; library %s" % (
                     tag, lst[0].get("model"), lst[0].get("library")), c["sheet_ast"], c["doc"]), nofail=True)
     ctx.notes["oracle_failures"] = len(new)
+    # the whole-interpreter refinement for the core language (props/C01core.py: explicit-stack machine = reference
+    # semantics, extracted machine vs the library on generated programs) runs as part of this check
+    if os.path.exists(os.path.join(core.VERIF, "props", "C01core.py")):
+        import importlib
+        importlib.import_module("props.C01core").run_part(ctx)
     return ctx.finish(LEVEL, explanation="unbounded theorems over Gallina models of the pending-start-tag event machine and of the VariablesStack (lexical scoping refinement) + structural facts regenerated from the source + two correspondences of the extracted models with the rebuilt library + a reference XSLT 1.0 interpreter as oracle on generated programs")
 
 
